@@ -109,6 +109,12 @@ func common(e *sched.Exec, name string, mustFinish []string) []sched.Finding {
 	if len(e.Leaked) > 0 && len(out) == 0 {
 		out = append(out, sched.Finding{Sig: name + ":goroutine-remains", Msg: firstLine(e.Leaked[0]) + " ... " + libFrame(e.Leaked[0])})
 	}
+	// goroutines without a frame of the library (a queue goroutine of a
+	// listener, for instance) show when the bubble ends: everything in it has
+	// been shut down by then, so whatever is still blocked was left behind
+	if e.Leak != "" && len(out) == 0 {
+		out = append(out, sched.Finding{Sig: name + ":goroutine-remains-blocked-at-the-end", Msg: firstLine(e.Leak)})
+	}
 	return out
 }
 
